@@ -13,7 +13,7 @@ import torch
 
 torch.set_num_threads(1)
 
-from vlib import cb, cl, cn, co, cp, cq, cz, coq_eval_bools, coq_eval_print, exc_kind, load_corpus, shrink
+from vlib import CoqError, cb, cl, cn, co, cp, cq, cz, coq_eval_bools, coq_eval_print, exc_kind, load_corpus, shrink
 
 IMPORTS = "From PV Require Import C15.Model C15.Spec.\nLocal Open Scope Z_scope.\n"
 TOL = "(1 # 1000000000000)%Q"
@@ -267,6 +267,47 @@ def model_term(case, out, rnd="fmt5 b64", restarts=True, tol=None):
     return "(check %s %s %s %s %s %s %s %s %s)" % (tol or tol_of(case), rnd, c_params(case["P"]), c_decl(decl),
                                                   cq(Fraction(case["dflt"])), c_steps(case["steps"], restarts),
                                                   obs, cache, rows)
+
+
+IMPORTS_SRC = "From PV Require Import C15.Model C15.SrcRun.\nLocal Open Scope Z_scope.\n"
+SOURCE_THEOREMS = ["c15_source_update_is_model", "c15_source_run_is_model", "c15_source_es_is_model",
+                   "c15_source_rlr_is_model", "c15_source_control_is_model", "c15_source_continue_training_is_model"]
+
+
+def src_term(case, out):
+    """bool: the regenerated source terms (PV.Gen.C15Src: the control blocks of update_for_epoch, continue_training,
+    get_last_epoch), run by PV.MiniPy.Interp inside Coq on the model's state, give what the implementation gave, epoch by
+    epoch: update_for_epoch's return value / exception, continue_training(), the optimizer's rate and self[epoch]."""
+    try:
+        obs = cl([c_obs(o, case["decl"]) for o in out["obs"]])
+    except (Bad, ValueError, ZeroDivisionError):
+        return "false"
+    return "(src_check %s fmt5 b64 %s %s %s %s %s)" % (tol_of(case), c_params(case["P"]), c_decl(case["decl"]),
+                                                     cq(Fraction(case["dflt"])), c_steps(case["steps"]), obs)
+
+
+def source_tie(chk, cases, outs, res):
+    """run the translated source inside Coq on the cases of this run (validates translator + MiniPy semantics + ext15
+    against CPython; independent of whether the tie lemmas still compile).  Only cases on which the model itself agrees
+    with the implementation are used, so that a disagreement here is the tie's and not the model's."""
+    idx = [i for i in range(len(cases)) if res[i]]
+    try:
+        sres = coq_eval_bools(chk.workdir, IMPORTS_SRC, [src_term(cases[i], outs[i]) for i in idx], tag="src")
+    except CoqError as e:
+        chk.extra["source_tie_run"] = "not evaluated: " + str(e)[-400:]
+        return
+    bad = [idx[j] for j, ok in enumerate(sres) if not ok]
+    chk.extra["source_tie_run"] = {"cases": len(idx), "disagreements": len(bad)}
+    chk.count("source_tie_cases", len(idx))
+    if bad:
+        i = bad[0]
+        chk.report({"kind": "source-tie", "case": cases[i], "impl": outs[i],
+                    "what": "the Python source as translated to MiniPy and interpreted in Coq (PV.C15.SrcRun.src_run) does not "
+                            "reproduce the implementation's output although PV.C15.Model does: translator / interpreter / ext15 "
+                            "no longer describe the code",
+                    "correspondence": "tie:C15:py2coq+MiniPy.Interp:TrainingStateController.{update_for_epoch control blocks,"
+                                      "continue_training,get_last_epoch}",
+                    "theorems_at_stake": SOURCE_THEOREMS}, no_failing_input=True)
 
 
 def spec_term(case, out_plain):
@@ -575,6 +616,7 @@ def run(chk, cases=None):
     res = coq_eval_bools(chk.workdir, IMPORTS, terms)
     bad = [i for i, ok in enumerate(res) if not ok]
     chk.extra["model_disagreements"] = len(bad)
+    source_tie(chk, cases, outs, res)
 
     # --- the relations the property states, on the implementation alone -------------------
     spec_terms, spec_idx, diffs = [], [], []
